@@ -6,13 +6,12 @@
    All are tied to /repo by harness/props/c18.py on every run.
 
    What is NOT proved here (only checked per run by the correspondence and the oracle):
-   * hypergraph_rule_eq_tree_rule -- that HyperGraph.contract keeps exactly the tree's legs
-     (for networks without a repeated index inside a tensor) needs a forest-level invariant
-     relating the edges dictionary to the leaves outside a node; it is not proved;
    * the single-term pass (compute_simplified) and simplify_scalars are modelled and compared
-     state by state, but have no theorem; simplify_hadamard / the greedy search are not modelled. *)
+     state by state, but have no theorem; simplify_hadamard / the greedy search are not modelled;
+   * for the fixed flop tracking, that the hypotheses of the per-step theorem are re-established
+     for the next step (see C18_fixed_step_reports_original_flops_partial). *)
 From Coq Require Import Lia.
-From Ctg Require Import Base Net HGraph Simulators Compressed BaseFacts NetFacts SimulatorsFacts.
+From Ctg Require Import Base Net HGraph Simulators Compressed BaseFacts NetFacts SimulatorsFacts HGraphFacts HGraphTreeFacts.
 
 (* annealing's compute_contracted_info is the tree rule, literally: same keys in the same
    order with the same counts (legs_union then filter count < appearances), cost = product
@@ -121,6 +120,48 @@ Example C18_fixed_code_witnesses :
   reported_flops_gen true n [(0, 1); (3, 2)] = total_flops n [] (Node (Node (Leaf 0) (Leaf 1)) (Leaf 2)) /\
   reported_flops n [(0, 1); (3, 2)] <> total_flops n [] (Node (Node (Leaf 0) (Leaf 1)) (Leaf 2)).
 Proof. vm_compute. repeat split; try reflexivity. discriminate. Qed.
+
+(* hypergraph_rule_eq_tree_rule: for every network without a repeated index inside a tensor and
+   every valid SSA path, replaying the path through HyperGraph.contract (from HyperGraph(inputs,
+   output, size_dict)) yields at every step a node whose (duplicate-free) index list is, as a
+   set, exactly the tree's legs of the corresponding subtree and whose node_size is the tree's
+   size; if moreover no index lives on a single tensor without being an output (nodangling)
+   then contract_pair_cost is the tree's flops.  obs_ok nd (k, (inds, (size, cost))) t says:
+   NoDup inds, inds =set lkeys (sub_legs n [] t), size = node_size, and (nd -> cost = node_flops). *)
+Theorem C18_hypergraph_rule_eq_tree_rule : forall n, (forall t, In t (inputs n) -> NoDup t) ->
+  forall path f' nd, (nd = true -> nodangling n) ->
+  ssa_replay (NN n) (map (fun i => (i, Leaf i)) (seq 0 (NN n))) path = Some f' ->
+  Forall2 (obs_ok n nd) (hg_replay (hg_init (inputs n) (output n) (szd n)) path)
+                        (replay_trees (NN n) (map (fun i => (i, Leaf i)) (seq 0 (NN n))) path) /\
+  length (hg_replay (hg_init (inputs n) (output n) (szd n)) path) = length path.
+Proof. exact hg_replay_is_tree_rule. Qed.
+Print Assumptions C18_hypergraph_rule_eq_tree_rule.
+
+(* the invariant behind it, one contraction at a time: the hypergraph represents a forest *)
+Theorem C18_hypergraph_contract_keeps_representation : forall n g F i j ti tj, Rep n g F -> i <> j -> In (i, ti) F -> In (j, tj) F ->
+  let g' := fst (hg_contract i j g) in
+  let k := snd (hg_contract i j g) in
+  k = hnext g /\ Rep n g' ((k, Node ti tj) :: del_tree j (del_tree i F)) /\
+  NoDup (get_node g' k) /\
+  (forall e, In e (get_node g' k) <-> In e (lkeys (sub_legs n [] (Node ti tj)))) /\
+  inrange n (leaves ti ++ leaves tj).
+Proof. exact contract_rep. Qed.
+Print Assumptions C18_hypergraph_contract_keeps_representation.
+
+Example C18_hypergraph_nonvacuous :
+  let n := mkNet [[0; 1]; [1; 2]; [1; 3]; [3; 0]] [2] [(0, 2%Z); (1, 3%Z); (2, 5%Z); (3, 2%Z)] in
+  (forall t, In t (inputs n) -> NoDup t) /\
+  ssa_replay 4 (map (fun i => (i, Leaf i)) (seq 0 4)) [(0, 1); (2, 3); (4, 5)] <> None /\
+  hg_replay (hg_init (inputs n) (output n) (szd n)) [(0, 1); (2, 3); (4, 5)] =
+    [(4, ([0; 1; 2], (30%Z, 30%Z))); (5, ([1; 0], (6%Z, 12%Z))); (6, ([2], (5%Z, 30%Z)))] /\
+  map (fun t => (lkeys (sub_legs n [] t), node_size n [] false t, node_flops n [] t))
+      (replay_trees 4 (map (fun i => (i, Leaf i)) (seq 0 4)) [(0, 1); (2, 3); (4, 5)]) =
+    [([0; 1; 2], 30%Z, 30%Z); ([1; 0], 6%Z, 12%Z); ([2], 5%Z, 30%Z)].
+Proof.
+  cbn zeta. split.
+  { intros t [<-|[<-|[<-|[<-|[]]]]]; repeat constructor; cbn; intuition lia. }
+  vm_compute. repeat split; try reflexivity. discriminate.
+Qed.
 
 (* non-vacuity: a hyper index (1 on three tensors), an output index; the hypotheses of the
    processor theorems hold for the first step and the figures are the expected numbers *)
